@@ -166,6 +166,14 @@ func (s *Server) PendingRejects() int {
 	return s.rejectSet
 }
 
+// SetVersion changes the server version announced to NEW connections. A version starting
+// with "5." also makes the server reject MySQL 8.0 collations (utf8mb4_0900_*) with 1273.
+func (s *Server) SetVersion(v string) {
+	s.mu.Lock()
+	s.opts.Version = v
+	s.mu.Unlock()
+}
+
 // RejectNextSet makes the server reject the next n SET statements (any connection)
 // atomically with error 1205, whatever their content.
 func (s *Server) RejectNextSet(n int) {
@@ -190,6 +198,12 @@ func (s *Server) StateOf(id uint32) (Snapshot, bool) {
 		return Snapshot{}, false
 	}
 	return st.Snapshot(), true
+}
+
+func (s *Server) pre80() bool {
+	s.mu.Lock()
+	defer s.mu.Unlock()
+	return strings.HasPrefix(s.opts.Version, "5.")
 }
 
 func (s *Server) record(e Entry) int {
@@ -252,7 +266,10 @@ func (s *Server) serve(id uint32, c net.Conn) {
 	// initial handshake v10
 	var g []byte
 	g = append(g, 10)
-	g = append(g, s.opts.Version...)
+	s.mu.Lock()
+	version := s.opts.Version
+	s.mu.Unlock()
+	g = append(g, version...)
 	g = append(g, 0)
 	g = append(g, byte(id), byte(id>>8), byte(id>>16), byte(id>>24))
 	g = append(g, salt[:8]...)
@@ -388,6 +405,8 @@ func (s *Server) query(id uint32, p *pconn, st *State, sql string) bool {
 				rej = perr
 			} else if inject {
 				rej = &SQLError{1205, "HY000", "Lock wait timeout exceeded; try restarting transaction (injected)"}
+			} else if s.pre80() && strings.Contains(strings.ToLower(sql), "_0900_") {
+				rej = &SQLError{1273, "HY000", "Unknown collation: a MySQL 8.0 collation on a pre-8.0 server"}
 			} else {
 				scratch := st.clone()
 				for _, a := range as {
